@@ -169,6 +169,14 @@ class Coordinator(object):
             self.member_id = response.member_id
             self.generation_id = response.generation_id
             self.leader_id = response.leader_id
+            if self._heartbeat_request_d is not None:
+                # A heartbeat sent with the previous member id and generation
+                # is still unanswered. Its outcome says nothing about the
+                # membership just granted (a late UnknownMemberId would clear
+                # the new member id and the consumers would be started with
+                # an empty one): abandon it.
+                d, self._heartbeat_request_d = self._heartbeat_request_d, None
+                d.cancel()
             return response
 
         de = self.client._send_request_to_coordinator(
@@ -328,6 +336,9 @@ class Coordinator(object):
         return result
 
     def _handle_heartbeat_failure(self, failure):
+        if self._heartbeat_request_d is None and failure.check(CancelledError):
+            # abandoned by _join_group_success
+            return
         self._heartbeat_request_d = None
         self._heartbeat_looper.stop()
         return self.rejoin_after_error(failure, label="heartbeat")
